@@ -1,7 +1,7 @@
 (* C20 — property theorems only.  Bodies live in Proofs.v / SortProofs.v. *)
 From Coq Require Import Sorting.Permutation Sorting.Sorted.
 From EsVerif.Common Require Import Base.
-From EsVerif.C20 Require Import Model Model2 Spec Proofs SortProofs Proofs2 Gen Tie.
+From EsVerif.C20 Require Import Model Model2 Spec Proofs SortProofs Proofs2 Exec History Checkers Meter Gen Tie.
 
 (* The in-place sorts leave a non-decreasing permutation of their input, key-value pairs kept
    together; the recursion always terminates within the model's fuel. *)
@@ -188,6 +188,75 @@ Theorem C20_empty_inputs :
   /\ (forall f chunksize schedule, pmap_exn f [] chunksize schedule = Some ([], None)).
 Proof. exact empty_inputs. Qed.
 
+(* ======================================================================================================
+   Proof-deepening round. *)
+(* the checkers DECIDE their properties (completeness; soundness is C20_checkers_sound) *)
+Theorem C20_checkers_complete :
+  (forall num nchunks l, isplit_ok num nchunks l -> isplit_check num nchunks l = true)
+  /\ (forall nper var cs, splitarray_ok nper var cs -> splitarray_check nper var cs = true)
+  /\ (forall d d', sort_ok (fun x => x) d d' -> sort_check d d' = true)
+  /\ (forall d d', sort_ok fst d d' -> sortkv_check d d' = true)
+  /\ (forall items out, pbar_ok items out -> pbar_check items out = true).
+Proof.
+  exact (conj isplit_check_complete (conj splitarray_check_complete (conj sort_check_complete
+        (conj sortkv_check_complete pbar_check_complete)))).
+Qed.
+
+(* the schedule-independent meter checker (used when mininterval > 0) is sound *)
+Theorem C20_meter_checker_sound : forall n leave tot ps, prints_check n leave tot ps = true -> prints_ok n leave tot ps.
+Proof. exact prints_check_sound. Qed.
+
+(* history: calls on a heap of objects.  Frame: nothing but the named cells is written, the heap only grows at its end *)
+Theorem C20_call_frame : forall h c,
+  (length h <= length (fst (step h c)) <= S (length h))%nat
+  /\ forall b, (b < length h)%nat -> ~ In b (writes c) -> hget (fst (step h c)) b = hget h b.
+Proof. exact step_frame. Qed.
+
+(* locality: heaps of equal size that agree on the cells a call reads undergo the same effect *)
+Theorem C20_call_depends_only_on_its_arguments : forall h1 h2 c,
+  length h1 = length h2 -> (forall a, In a (reads c) -> hget h1 a = hget h2 a) ->
+  (valid h1 c = false /\ step h1 c = (h1, AErr EIndex) /\ step h2 c = (h2, AErr EIndex))
+  \/ exists e, step h1 c = commit h1 e /\ step h2 c = commit h2 e.
+Proof. exact step_local. Qed.
+
+Theorem C20_answer_independent_of_history : forall h1 h2 c,
+  length h1 = length h2 -> (forall a, In a (reads c) -> hget h1 a = hget h2 a) -> snd (step h1 c) = snd (step h2 c).
+Proof. exact step_answer_local. Qed.
+
+(* no buffer reuse: a returned object did not exist before, and no later call that does not name it changes it *)
+Theorem C20_result_is_fresh : forall h c a,
+  snd (step h c) = AAddr a -> a = length h /\ length (fst (step h c)) = S (length h).
+Proof. exact result_is_fresh. Qed.
+
+Theorem C20_results_unchanged_by_later_calls : forall cs h b,
+  (b < length h)%nat -> (forall c, In c cs -> ~ In b (writes c)) -> hget (fst (run h cs)) b = hget h b.
+Proof. exact run_frame. Qed.
+
+(* format_meter's bar branch: the divisions read from the source raise exactly when n = 0 and elapsed > 0 (inside the
+   branch), and the full bar never makes such a call *)
+Theorem C20_source_meter_divisions : gen_meter_divisions = meter_divisions /\ (forall a b, gen_status_pad a b = status_pad a b).
+Proof. exact (conj tie_meter_divisions tie_status_pad). Qed.
+
+Theorem C20_format_meter_raises_iff : forall n total el,
+  format_meter_raises n total el = true <-> (exists t, meter_total n total = Some t) /\ n = 0 /\ el = SPos.
+Proof. exact meter_raises_iff. Qed.
+
+Theorem C20_format_meter_safe_of_source : forall n total el, (n = 0 -> el <> SPos) ->
+  match meter_total n total with Some t => divisions_raise gen_meter_divisions n t el | None => false end = false.
+Proof. exact src_meter_safe. Qed.
+
+Theorem C20_full_bar_never_divides_by_zero : forall miniters leave c items,
+  let tot := eff_total c (Z.of_nat (length items)) in
+  exists rest, full_prints miniters leave c items = (0, meter_total 0 tot) :: rest
+    /\ format_meter_raises 0 tot SZero = false
+    /\ forall p el, In p rest -> format_meter_raises (fst p) tot el = false.
+Proof. exact full_bar_meter_calls_safe. Qed.
+
+(* StatusPrinter: after any sequence of print_status calls the terminal line is the last status followed by blanks *)
+Theorem C20_status_line_shows_last : forall (A : Type) (blank : A) ss s,
+  exists k, fst (run_status blank [] 0 (ss ++ [s])) = s ++ repeat blank k.
+Proof. exact @status_line_shows_last. Qed.
+
 Definition task_exn_demo (x : Z) : result Z := if x =? 4 then Err EValue else if x =? 5 then Err EKey else Ok (x * x).
 
 (* Non-vacuity: concrete non-trivial instances meet the hypotheses and the conclusions compute. *)
@@ -208,4 +277,14 @@ Example C20_nonvacuous2 :
   /\ pmap_exn (task_exn_demo) [1; 2; 3; 4; 5; 6] 2 [2; 1; 0] = Some ([1; 4], Some EValue)
   /\ pbar_nested {| simple := true; has_len := true; total := Some 9 |} {| simple := false; has_len := false; total := None |} [5; 6]
      = ([(5, 1); (6, 2)], None).
+Proof. repeat split; reflexivity. Qed.
+
+Example C20_nonvacuous3 :
+  (* a history: create, sort in place, isplit twice, scribble over the first result: the second is untouched *)
+  run [] [CNew [3; 1; 2]; CQuicksort 0; CIsplit 10 3; CIsplit 10 3; CWrite 1 (VPairs [(1000, 997)])]
+  = ([VList [1; 2; 3]; VPairs [(1000, 997)]; VPairs [(0, 4); (4, 7); (7, 10)]], [AAddr 0%nat; ANone; AAddr 1%nat; AAddr 2%nat; ANone])
+  /\ format_meter_raises 0 (Some 5) SPos = true /\ format_meter_raises 3 (Some 5) SPos = false
+  /\ fst (run_status 0 [] 0 [[1; 2; 3; 4]; [7; 8]]) = [7; 8; 0; 0]
+  /\ prints_check 5 true (Some 3) [(0, Some 3); (2, Some 3); (5, None)] = true
+  /\ sort_check [2; 1; 2] [1; 2; 2] = true.
 Proof. repeat split; reflexivity. Qed.
